@@ -586,7 +586,7 @@ pub fn check(ctx: &mut Ctx) {
 	ctx.rule = "limits 0..3 x {http+ws, http-only, ws-only}; histories of {HTTP request to a gated handler, release, client abort of an in-flight request, quick HTTP call, keep-alive HTTP/1.1 connection through hyper, WebSocket session open, clean close, abrupt drop, drop with a call in flight, \
 		upgrade request dropped before the 101 is read, malformed upgrades (missing key / wrong version / POST)}, with up to 120 repetitions of an open/exit cycle inside a history and 200 cycles per exit path as dedicated cases. \
 		Oracle: counter model of requests/sessions in progress: an attempt at the limit is answered 429 and no handler runs, otherwise it is served; inside a handler max-available equals the model; after EVERY step a probe request must see exactly limit-model-1 free slots (or 429 at the limit), so a leaked slot shows at once. \
-		Sub-check given-up-for-inactivity: 1..3 silent WebSocket peers (0..2 gated calls in flight, optional subscription; TowerService or low-level ws::connect) with ping enabled and a 1 ms real-time inactivity limit, max_failures 1..3; after a real 3 ms sleep and ~700 ping intervals of the paused clock the probe must see every one of their slots free and the limit must be reachable again. 		Non-trivial = the limit was reached >= 2 times with >= 1 abnormal exit in between (histories) / a session was given up with a call in flight (give-up); distinct by case value."
+		Sub-check given-up-for-inactivity: 1..3 silent WebSocket peers (0..2 gated calls in flight, optional subscription; TowerService or low-level ws::connect) with ping enabled and a 1 ms real-time inactivity limit, max_failures 1..3; after a real 3 ms sleep and ~700 ping intervals of the paused clock the probe must see every one of their slots free and the limit must be reachable again. 		Non-trivial = the limit was reached >= 2 times with >= 1 abnormal exit in between (histories) / a session was given up with a call in flight (give-up); distinct by case value. Further sub-checks: low-level-server-side-close (ws::connect sessions under a shared ConnectionGuard, closed by dropping the connection future) and connections-over-tcp (Server::start on loopback; peers close their sockets while their calls execute; real clock, ten-second budget). The main histories also include protocol-violating frames, the limit set on the service builder and probes through ProxyGetRequestLayer."
 		.into();
 	ctx.assumptions = vec!["S-mem: the service is called directly (HTTP) or served by hyper over an in-memory duplex (WS, raw HTTP); the TCP accept loop of `Server::start` is covered by C10's fixture".into()];
 	let cyc = long_cycles(ctx.tier);
